@@ -800,7 +800,8 @@ def real_cases(chk, rng):
            ("H", (round(-rch * np.sin(ang / 2), 6), 0., round(rch * np.cos(ang / 2), 6)))]
     a_ = rng.uniform(0.9, 1.05)
     th = rng.uniform(1.7, 1.95)
-    h2o = [("O", (0., 0., 0.)), ("H", (round(a_, 6), 0., 0.)), ("H", (round(a_ * np.cos(th), 6), round(a_ * np.sin(th), 6), 0.))]
+    hx, hy = round(a_ * np.sin(th / 2), 6), round(a_ * np.cos(th / 2), 6)
+    h2o = [("O", (0., 0., 0.)), ("H", (hx, hy, 0.)), ("H", (-hx, hy, 0.))]      # exactly C2v (symmetry="C2v" is requested below)
     ecp = {"ecp": {"Na": "lanl2dz"}}
     tgs = {"tags": ["spin0-triplet-ground-state"]}
     h4s = chain(4, rng)
@@ -847,7 +848,7 @@ def real_cases(chk, rng):
                   ("CH2-bent-symmetry-frozen-0-1-6", ch2, 0, 0, "sto-3g", False, [0, 1, 6], "fci", dict(tgs, symmetry=True)),
                   ("LiH-lanl2dz-no-ecp", lih2, 0, 0, "lanl2dz", False, [0, 4, 5, 6, 7, 8, 9, 10], "fci"),
                   ("NaH-ecp-rhf-g2", [("Na", (0., 0., 0.)), ("H", (0., 0., round(rng.uniform(1.7, 2.1), 6)))], 0, 0, "lanl2dz", False,
-                   [0, 5, 6, 7, 8, 9], "fci", ecp)]
+                   [1, 5, 6, 7, 8, 9], "fci", ecp)]
     return cases
 
 
@@ -1136,11 +1137,14 @@ def real_evaluate(chk, recs, judged):
                 raise tlc.TLCError("structure constants outside {-1,0,1}")
             H, leak, herm = contract_sector(run_["coefs"], st, run_["dim"])
             worst["leak"] = max(worst["leak"], leak, herm)
-            if leak > 1e-8 or herm > 1e-8:
+            # 1e-6: openfermion drops operator terms below 1e-8 (EQ_TOLERANCE) independently of their Hermitian partners, so
+            # an input with symmetry-forbidden integrals of ~1e-8..1e-7 legitimately yields a block that is Hermitian /
+            # sector-invariant only to a few 1e-8; eigvalsh below works on the Hermitian part
+            if leak > 1e-6 or herm > 1e-6:
                 chk.violation("real:%s:%s:sector-not-invariant:%s" % (ref, frz, enc),
                               "%s: H_q leaves the encoded (n_alpha,n_beta) sector (%.2e) or block not Hermitian (%.2e)" % (info["label"], leak, herm), case)
                 continue
-            e0 = float(np.linalg.eigvalsh(H)[0])
+            e0 = float(np.linalg.eigvalsh((H + H.conj().T) / 2)[0])
             if run_["rot"] == "sz1":
                 rec["e_sz1"] = e0
                 continue
